@@ -381,6 +381,14 @@ fn cap_one(ctx: &mut Ctx, c: &Case) {
     let cap = run_capture(c);
     ctx.emit(&req, &cap.show());
     check_cap(ctx, c, &cap, &req);
+    // get_diff_ratio: exact fraction and the f32 bits
+    if let Some(ops) = &cap.ops {
+        let dops: Vec<similar::DiffOp> = ops.iter().filter_map(|c| c.to_op()).collect();
+        let (ol, nl) = (c.oe - c.os, c.ne - c.ns);
+        let ratio = similar::get_diff_ratio(&dops, ol, nl);
+        let (_, _, e) = oracle::cost(ops);
+        ctx.emit(&format!("ratio {} {} | {}", ol, nl, proto::show_calls(ops)), &format!("ok R={}/{} F={}", 2 * e, ol + nl, ratio.to_bits()));
+    }
     // the pipeline built by hand must give what the capture function gives (plumbing)
     let mut m = c.clone();
     m.stack = Stack::CompactReplace;
